@@ -184,6 +184,28 @@ Theorem C05_alt_var_overlap_matches_source : forall g v,
   k_gpo_alt_var_overlaps_var (kgpo_of g) v = alt_var_overlaps_var g (v_pos v) (zlen (v_ref v)).
 Proof. exact k_gpo_alt_var_overlaps_var_eq. Qed.
 
+(* the construction itself: clamp_var_stats_collection (sort by position, bounds of the first and the last variant; its overlap test compares
+   an int with a VarStats and never fires - translated as such) for every input, and from_var_stats with __post_init__ on every valid range:
+   the record the source builds is the model's, and a refusal is the model's exception, wherever the model does not flag a negative array index *)
+Theorem C05_clamp_matches_source : forall vs r, k_clamp_var_stats_collection vs r = clamp vs r.
+Proof. exact k_clamp_var_stats_collection_eq. Qed.
+
+Theorem C05_from_var_stats_matches_source : forall vs r, range_valid r = true -> from_var_stats vs r <> Err OtherErr ->
+  k_gpo_from_var_stats vs r = match from_var_stats vs r with Ok g => Ok (kgpo_of g) | Err e => Err e end.
+Proof. exact k_gpo_from_var_stats_eq. Qed.
+
+(* together: a GenomicPositionOffsets the translated source builds obeys the liftover laws proved about the model *)
+Theorem C05_source_record_is_model_record : forall vs r g, range_valid r = true -> from_var_stats vs r = Ok g ->
+  k_gpo_from_var_stats vs r = Ok (kgpo_of g) /\
+  (forall q, k_gpo_alt_to_ref_position (kgpo_of g) q = alt_to_ref_position g q) /\
+  (forall p nearest, k_gpo_ref_to_alt_position (kgpo_of g) p nearest = ref_to_alt_position g p nearest).
+Proof.
+  intros vs r g Hv H.
+  exact (conj (k_gpo_from_var_stats_ok vs r g Hv H)
+              (conj (k_gpo_alt_to_ref_position_eq g)
+                    (fun p n => k_gpo_ref_to_alt_position_eq g p n (from_var_stats_del_length vs r g Hv H)))).
+Qed.
+
 (* the recorded finding read off the translated source: one base on an insertion point is not reported, two bases over it are *)
 Theorem C05_alt_single_base_insertion_point_in_source :
   exists g, from_var_stats [mkVS 13 0 2] (mkRange 10 20) = Ok g /\
@@ -245,5 +267,8 @@ Print Assumptions C05_alt_to_ref_matches_source.
 Print Assumptions C05_ref_to_alt_matches_source.
 Print Assumptions C05_alt_var_overlap_matches_source.
 Print Assumptions C05_alt_single_base_insertion_point_in_source.
+Print Assumptions C05_clamp_matches_source.
+Print Assumptions C05_from_var_stats_matches_source.
+Print Assumptions C05_source_record_is_model_record.
 Print Assumptions C05_alt_var_overlap_characterised.
 Print Assumptions C05_alt_single_base_insertion_point_refuted.
